@@ -5,8 +5,8 @@
 (* the call, the handler calls, and the endpoints' states after it.            *)
 EXTENDS MC_WsLife, Json
 
-CONSTANTS Family,
-          WBuf      \* the write buffer size the replayer gives both connections (the specification does not care)
+CONSTANT WBuf      \* the write buffer size the replayer gives both connections (the specification does not care)
+Family == cf.fam
 VARIABLES hist, fin
 gvars == <<vars, hist, fin>>
 
